@@ -48,6 +48,7 @@ pub fn gen_tcase(rng: &mut Rng, with_unsub: bool, sched_ops: bool) -> TCase {
     // tasks are immediately runnable or short
     exclude: if sched_ops { vec![] } else { vec!["GroupFlat"] },
     allow_flat: true,
+    producer_leaves: false,
   };
   let root = loop {
     let r = gen_node(rng, &cfg, 0);
